@@ -9,8 +9,9 @@ import (
 var (
 	errPathNotFound = errors.New("path does not exist")
 	setJSONOptions  = &sjson.Options{
-		Optimistic:     true,
-		ReplaceInPlace: true,
+		// ReplaceInPlace is not used as it would modify the bytes
+		// that the caller passed to MatchJSON.
+		Optimistic: true,
 	}
 )
 
